@@ -315,13 +315,26 @@ class Runner:
         inc = [res[("i", i)] for i in range(n)]
         fresh = []
         for i in range(n):
-            r = res[("f", i // fresh_batch)]
-            k = i % fresh_batch
-            if not isinstance(r, list) or (r and r[0] == -997) or k >= len(r):
-                fresh.append(None)
-            else:
-                fresh.append(last_pub([r[k]], k))
+            fresh.append(self.fresh_result(res[("f", i // fresh_batch)], i % fresh_batch, finals[i], autosave))
         return inc, fresh
+
+    def fresh_result(self, r, k, text, autosave, alone=False):
+        """what the fresh reference server published for its k-th document: a list of diagnostics, or
+        ("crash", message) when the analysis of that text itself panics / kills the process (a defect of the checker,
+        property C07: there is nothing to compare).  A document for which didOpen published nothing has no diagnostics
+        (check_file publishes nothing for a clean document while another open document has errors)."""
+        ok_batch = isinstance(r, list) and r and isinstance(r[0], list) and k < len(r)
+        if ok_batch:
+            st = r[k]
+            if st[0] == 0:
+                return last_pub([st], k) or []
+            if st[0] == -999:
+                return ("crash", sx_str(st[-1]))
+        if alone:
+            return ("crash", "the server process died (%s)" % (r[:2] if isinstance(r, list) else r))
+        # the whole batch was lost (the process died or panicked outside a handler): this text again, in its own server
+        self.serial += 1
+        return self.fresh_result(self.h.run([[2, self.serial, int(autosave), [text]]])[0], 0, text, autosave, alone=True)
 
     def parse(self, texts):
         r = self.h.run([[4, texts]])[0]
@@ -351,24 +364,28 @@ class Runner:
                 r["judge"] = {"why": "the handler %s at notification %d" % (
                     "panicked: " + sx_str(st[-1]) if st[0] == -999 else "returned an error", bad), "step": bad}
                 ns_i = notifications(h, autosave)
-                if st[0] == -999 and bad < len(ns_i) and ns_i[bad][0] == 1:
+                if st[0] == -999 and bad < len(ns_i) and ns_i[bad][0] == 1 and "has qvar" in sx_str(st[-1]):
                     # the didChange handler (quick_check_file) panicked: class of the known finding, if it is listed
                     r["known"] = "C29-quick-check-panics"
                 if st[0] == -999:
                     # is it the analysis of that text itself that panics (then a fresh server panics on it too: a
                     # defect of the checker, property C07, and there are no diagnostics to compare) or the history?
                     t = text_at(h, autosave, bad)
-                    fr = self.h.run([[2, self.serial, int(autosave), [t]]])[0]
                     self.serial += 1
-                    if isinstance(fr, list) and fr and isinstance(fr[0], list) and fr[0][0] == -999:
+                    fr = self.fresh_result(self.h.run([[2, self.serial, int(autosave), [t]]])[0], 0, t, autosave, alone=True)
+                    if isinstance(fr, tuple):
                         r["judge"] = None
-                        r["checker_panic"] = sx_str(fr[0][-1])
+                        r["checker_panic"] = fr[1]
+                        r["crash_text"] = t
                 continue
-            lp = last_pub(steps, 0)
-            if lp is None or fresh[i] is None:
-                r["judge"] = {"why": "no diagnostics were published for the document" if lp is None
-                              else "the fresh server published nothing / died"}
+            if isinstance(fresh[i], tuple):
+                # the reference itself crashes on the final text: out of this property's scope (C07)
+                r["checker_panic"] = fresh[i][1]
+                r["crash_text"] = final_text(h)
+                r["fresh"] = None
                 continue
+            # a document for which nothing was ever published shows no diagnostics
+            lp = last_pub(steps, 0) or []
             a, b = canon_diags(lp), canon_diags(fresh[i])
             r["inc_final"], r["fresh_final"] = a, b
             jcases.append([1, [enc_diag(d) for d in a], [enc_diag(d) for d in b]])
@@ -438,7 +455,10 @@ class Runner:
                 if ms == -999:
                     out[i]["corr"] = {"step": j, "why": "the model panics", "notification": ns[j]}
                     break
-                pub_i = int(any(p[0] == 0 for p in st[1]))
+                # didOpen of a document without diagnostics publishes nothing for it when another open document of the
+                # same server has errors (check_file then takes its error arm, and didOpen does not send the empty list):
+                # the publish event of didOpen is not compared
+                pub_i = 1 if j == 0 else int(any(p[0] == 0 for p in st[1]))
                 ast_i = [ids.get(sx_str(c), -len(ids) - 1) for c in st[3]] if isinstance(st[3], list) else -1
                 got = [pub_i, ast_i, st[4]]
                 want = [ms[0], ms[1], ms[2]]
@@ -498,6 +518,9 @@ def stats(ctx, hist, r, origin, autosave):
             ctx.count("final text: has errors")
     if r.get("checker_panic"):
         ctx.count("skipped: the analysis of a text of the history panics in a fresh server too (C07): " + r["checker_panic"][:60])
+        note = "C07 witness (a fresh language server crashes on this text: %s): %r" % (r["checker_panic"][:80], r.get("crash_text"))
+        if note not in ctx.notes and len(ctx.notes) < 8:
+            ctx.notes.append(note)
     if r.get("noise"):
         ctx.count("message differs only in the print order of type-variable bounds (not counted as a difference)")
     ctx.case([hist["text0"]] + [st["text"] for st in hist["steps"]] + [autosave], nontrivial=nontriv,
@@ -519,6 +542,11 @@ def run(ctx):
                        "one open document per history; the fresh reference server opens up to 20 unrelated documents (distinct URIs), "
                        "the first of every batch in a brand-new server",
                        "the full analysis of a document is a function of its text (sampled: this is what the judge compares)",
+                       "every server (incremental and reference) is driven only after its start-up work is over "
+                       "(Flags::builtin_modules_loaded, the signal els' own tests wait for): while the thread started by "
+                       "CompletionCache::new still analyses the python standard modules into the shared module cache, a document "
+                       "that imports one of them can get a spurious `Module(\"math.d.er\") object has no attribute pi` (observed "
+                       "with seed 1 before the harness waited)",
                        "messages are compared after replacing generated type-variable numbers (%N, ?N) and document names; "
                        "two messages that differ only in the order of the same characters count as equal (hash-ordered bound lists)"]
     proof = ctx.coq(["Els/Props_C29.v"])
